@@ -312,6 +312,17 @@ def run_case(case: dict[str, Any], drv: core.Driver | None, want_dump: bool = Tr
         from verif import fleet
         handle = fleet.make(case["storage"], tmp or case.get("tmp") or tempfile.gettempdir())
     try:
+        if case.get("prior"):
+            # prior use of this pruner object by a study of the OPPOSITE direction (its own storage and name)
+            other = optuna.create_study(direction="maximize" if direction == "min" else "minimize", pruner=real,
+                                        study_name=name + "-prior", storage=optuna.storages.InMemoryStorage(),
+                                        sampler=optuna.samplers.RandomSampler(seed=1))
+            for i in range(3):
+                t = other.ask()
+                for st_ in range(4):
+                    t.report(float((i * 7 + st_ * 3) % 5), st_)
+                    t.should_prune()
+                other.tell(t, float(i))
         study = optuna.create_study(direction="minimize" if direction == "min" else "maximize", pruner=real,
                                     study_name=name, storage=handle.storage if handle else optuna.storages.InMemoryStorage(),
                                     sampler=optuna.samplers.RandomSampler(seed=0))
@@ -617,7 +628,10 @@ def gen_case(r: random.Random, idx: int, protect: str | None = None, spec: dict[
                 break
             ops.append(plans[n][cursor[n]])
             cursor[n] += 1
-    return {"dir": direction, "name": name, "pruner": spec, "ops": ops, "hero": hero, "protect": protect}
+    # the same pruner OBJECT may have served another study before (a user re-using one pruner instance for a minimize and a
+    # maximize study): nothing a pruner memoises may depend on that other study
+    return {"dir": direction, "name": name, "pruner": spec, "ops": ops, "hero": hero, "protect": protect,
+            "prior": r.random() < 0.15 and "hyperband" not in json.dumps(spec)}   # (Hyperband legitimately fixes its bracket count on first use)
 
 
 # ------------------------------------------------------------------------------------------------
